@@ -531,7 +531,10 @@ static unsigned char* ensure(printbuffer * const p, size_t needed)
             return NULL;
         }
 
-        memcpy(newbuffer, p->buffer, p->offset + 1);
+        if (p->length > 0)
+        {
+            memcpy(newbuffer, p->buffer, p->offset + 1);
+        }
         p->hooks.deallocate(p->buffer);
     }
     p->length = newsize;
